@@ -1047,6 +1047,8 @@ def _offset_starters(ctx, mir) -> None:
 def run(ctx) -> None:
     ctx.explanation = EXPLANATION
     ctx.step(_py_iso_tabulate, ctx)
+    from . import C13
+    ctx.step(C13.parse_results_tabulate, ctx)         # what pendulum.parse builds from the value the parser returns (offset kept, no arithmetic on the way: 9999-12-31 with a negative offset is a value)
     ctx.step(_table_is_cumulative, ctx)
     ctx.step(_py_forward, ctx)
     ctx.step(_py_backward, ctx)
